@@ -2,7 +2,7 @@
    binary64 arithmetic from TtmlFloat.v). *)
 From Coq Require Import List ZArith NArith Bool Lia.
 From Astisub Require Import Kit.Base Kit.Str Kit.Float64 Kit.Float64x Kit.Xml Model.Dur Model.Ttml
-  Proofs.DurProofs Proofs.TtmlSpec Proofs.TtmlTime Proofs.TtmlFloat.
+  Proofs.DurProofs Proofs.TtmlSpec Proofs.TtmlTime Proofs.TtmlFloat Proofs.TtmlFloat2.
 Import ListNotations.
 Open Scope Z_scope.
 
@@ -21,30 +21,36 @@ Proof.
   - apply offset_term_correct; assumption.
 Qed.
 
-(* offsets in frames: N f at frame rate fr *)
-Theorem frames_offset_denotes ip fr tr : digits ip -> ip <> [] ->
-  0 < dval ip < 2 ^ 53 -> 0 < fr < 2 ^ 53 -> dval ip * second_ns < 2 ^ 49 * fr ->
-  exists r, ttml_time (offset_expr ip [] Mf) fr tr = Some r /\ denotes_instant r (dval ip * second_ns) fr.
+(* offsets in frames, the count possibly with a fraction: n / 10^k frames at frame rate fr *)
+Theorem frames_offset_denotes ip fp fr tr : digits ip -> digits fp -> ip <> [] ->
+  let n := dec_mant ip fp in let den := 10 ^ Z.of_nat (length fp) in
+  0 < n < 2 ^ 53 -> (length fp <= 22)%nat -> 0 < fr < 2 ^ 53 -> n * second_ns < 2 ^ 49 * (den * fr) ->
+  exists r, ttml_time (offset_expr ip fp Mf) fr tr = Some r /\ denotes_instant r (n * second_ns) (den * fr).
 Proof.
-  intros Hi Hne Hf Hfr Hb. exists (frames_term (dval ip) fr). split.
-  - rewrite offset_time by (try assumption; reflexivity). cbv zeta.
-    rewrite count_exact by (rewrite dec_mant_nil; lia). rewrite dec_mant_nil.
-    assert (E : (0 <? dval ip) && (0 <? fr) = true) by (apply andb_true_iff; split; apply Z.ltb_lt; lia).
-    rewrite E. reflexivity.
-  - apply frames_term_correct; assumption.
+  intros Hi Hf Hne n den Hn Hl Hfr Hb. exists (frames_val_term (parse_dec ip fp) fr). split.
+  - rewrite offset_time by assumption. cbv zeta. rewrite (parse_dec_fpos ip fp Hn Hl), orb_true_r.
+    assert (E : (0 <? fr) = true) by (apply Z.ltb_lt; lia). rewrite E. reflexivity.
+  - apply frames_val_correct; assumption.
 Qed.
 
-(* offsets in ticks: N t at tick rate tr *)
-Theorem ticks_offset_denotes ip fr tr : digits ip -> ip <> [] ->
-  0 < dval ip < 2 ^ 53 -> 0 < tr < 2 ^ 53 -> dval ip * second_ns < 2 ^ 49 * tr ->
-  exists r, ttml_time (offset_expr ip [] Mt) fr tr = Some r /\ denotes_instant r (dval ip * second_ns) tr.
+(* offsets in ticks, the count possibly with a fraction: n / 10^k ticks at tick rate tr *)
+Theorem ticks_offset_denotes ip fp fr tr : digits ip -> digits fp -> ip <> [] ->
+  let n := dec_mant ip fp in let den := 10 ^ Z.of_nat (length fp) in
+  0 < n < 2 ^ 53 -> (length fp <= 22)%nat -> 0 < tr < 2 ^ 53 -> n * second_ns < 2 ^ 49 * (den * tr) ->
+  exists r, ttml_time (offset_expr ip fp Mt) fr tr = Some r /\ denotes_instant r (n * second_ns) (den * tr).
 Proof.
-  intros Hi Hne Ht Htr Hb. exists (ticks_term (dval ip) tr). split.
-  - rewrite offset_time by (try assumption; reflexivity). cbv zeta.
-    rewrite count_exact by (rewrite dec_mant_nil; lia). rewrite dec_mant_nil.
-    assert (E : (0 <? dval ip) && (0 <? tr) = true) by (apply andb_true_iff; split; apply Z.ltb_lt; lia).
-    rewrite E. reflexivity.
-  - apply ticks_term_correct; assumption.
+  intros Hi Hf Hne n den Hn Hl Htr Hb. exists (ticks_val_term (parse_dec ip fp) tr). split.
+  - rewrite offset_time by assumption. cbv zeta. rewrite (parse_dec_fpos ip fp Hn Hl), orb_true_r.
+    assert (E : (0 <? tr) = true) by (apply Z.ltb_lt; lia). rewrite E. reflexivity.
+  - apply ticks_val_correct; assumption.
+Qed.
+
+(* a zero count (0f, 0.00t, ...) is the instant 0, whatever the rates *)
+Theorem zero_count_time ip fp m fr tr : digits ip -> digits fp -> ip <> [] -> (m = Mf \/ m = Mt) ->
+  dec_mant ip fp = 0 -> ttml_time (offset_expr ip fp m) fr tr = Some 0.
+Proof.
+  intros Hi Hf Hne Hm H0. rewrite offset_time by assumption. cbv zeta.
+  destruct (parse_dec_zero ip fp H0) as [Hp Hz]. rewrite Hp, Hz. destruct Hm as [-> | ->]; reflexivity.
 Qed.
 
 (* clock time with frames: hours:minutes:seconds exactly, plus the frames at the document's frame rate *)
